@@ -197,10 +197,74 @@ def best_of_all_rollouts(ctx: Ctx):
         o.rule = "C15.k"
 
 
+def best_is_the_maximum_reward(ctx: Ctx):
+    """C15.m / C15.n
+    m) `best of k` means the MAXIMUM reward (rewards are negative costs for most problems and positive prizes for OP / MCP): in
+       the evaluators' `_inner`, in `DecodingStrategy._select_best` and `BeamSearch._select_best_beam`, no `.min` / `.argmin` /
+       `.abs()` is applied to a reward value -- `rewards.abs().min()` is the same as `rewards.max()` only while every reward is
+       negative;
+    n) the dataset-level figure `avg_reward` returned by EvalBase.__call__ is the mean over ALL per-instance rewards (the
+       concatenation), not a mean of per-batch means, which over-weights a short last chunk."""
+    targets = []
+    ev = ctx.repo.module_by_path("rl4co/tasks/eval.py")
+    for cn, c in sorted(ev.classes.items()):
+        if "_inner" in c.methods:
+            targets.append((f"{cn}._inner", c.methods["_inner"]))
+    dec = ctx.repo.module_by_path("rl4co/utils/decoding.py")
+    for cn, mn in (("DecodingStrategy", "_select_best"), ("BeamSearch", "_select_best_beam")):
+        fi = dec.classes[cn].methods.get(mn)
+        if fi is None:
+            raise AnalysisError(f"{cn}.{mn} not found")
+        targets.append((f"{cn}.{mn}", fi))
+    if len(targets) < 6:
+        raise AnalysisError(f"best-selection functions lost: {len(targets)} < 6")
+    for lab, fi in targets:
+        ctx.fn(fi)
+        # names bound to a reward: `reward*`, or assigned from env.get_reward(...) / a dict entry "reward"
+        rnames = set()
+        for st in ast.walk(fi.node):
+            if isinstance(st, ast.Assign):
+                src = ast.unparse(st.value)
+                for t in st.targets:
+                    for t_ in (t.elts if isinstance(t, ast.Tuple) else [t]):
+                        if isinstance(t_, ast.Name) and ("reward" in t_.id or "get_reward" in src or "['reward']" in src or '["reward"]' in src or any(r_ in src.split("(")[0] for r_ in rnames)):
+                            rnames.add(t_.id)
+        bad = []
+        for c in ast.walk(fi.node):
+            if isinstance(c, ast.Call) and isinstance(c.func, ast.Attribute) and c.func.attr in ("min", "argmin", "abs", "amin"):
+                names = {x.id for x in ast.walk(c.func.value) if isinstance(x, ast.Name)}
+                if names & rnames or "reward" in ast.unparse(c.func.value):
+                    bad.append(f"{ast.unparse(c)[:50]} (line {c.lineno})")
+        ctx.ob("C15.m", f"{lab}:best-is-the-maximum-reward", not bad, fi.loc,
+               "no min / argmin / abs on a reward" if not bad else f"{bad[0]}: selecting by smallest magnitude picks the WORST rollout when rewards are positive (OP prizes, MCP coverage)",
+               construct=f"{lab}:min-or-abs-of-reward")
+    eb = ev.classes["EvalBase"].methods.get("__call__")
+    if eb is None:
+        raise AnalysisError("EvalBase.__call__ not found")
+    ctx.fn(eb)
+    cat_names = {t.id for st in ast.walk(eb.node) if isinstance(st, ast.Assign) and isinstance(st.value, ast.Call) and ast.unparse(st.value.func) in ("torch.cat", "torch.concat")
+                 for t in st.targets if isinstance(t, ast.Name)}
+    ok_avg, why_avg = False, "`avg_reward` entry of the returned dict not found"
+    for d in ast.walk(eb.node):
+        if isinstance(d, ast.Dict):
+            for k, v in zip(d.keys, d.values):
+                if isinstance(k, ast.Constant) and k.value == "avg_reward":
+                    val = v
+                    if isinstance(val, ast.Name):
+                        defs = [st.value for st in ast.walk(eb.node) if isinstance(st, ast.Assign) and any(isinstance(t, ast.Name) and t.id == val.id for t in st.targets)]
+                        val = defs[-1] if defs else val
+                    names = {x.id for x in ast.walk(val) if isinstance(x, ast.Name)}
+                    is_mean = any(isinstance(x, ast.Call) and isinstance(x.func, ast.Attribute) and x.func.attr == "mean" for x in ast.walk(val))
+                    ok_avg = bool(is_mean and names & cat_names and not any(isinstance(x, ast.Call) and ast.unparse(x.func) in ("torch.stack",) for x in ast.walk(val)))
+                    why_avg = f"avg_reward = {ast.unparse(val)[:60]}: mean of the concatenated per-instance rewards -- {ok_avg}"
+    ctx.ob("C15.n", "EvalBase.__call__:avg-reward-over-all-instances", ok_avg, eb.loc, why_avg, construct="EvalBase.__call__:avg_reward")
+
+
 def run(ctx: Ctx):
     augment_after_reset(ctx)
     augmented_feature_written_whole(ctx)
     best_of_all_rollouts(ctx)
+    best_is_the_maximum_reward(ctx)
     # ---------------- a: dihedral
     fi = ctx.repo.get_function(TR, "dihedral_8_augmentation")
     ctx.fn(fi)
